@@ -340,6 +340,25 @@ open_("F-C25-import-index-panics", "C25",
                  "cats": ["index out of bounds: the len is # but the index is #", "no entry found for key",
                           "called `Option::unwrap()` on a `None` value"]}])
 
+# ---------------------------------------------------------------- C24
+CLEAN_C24 = "names_in_formulas,borders,cf,row_hidden,row_sizes,row_style,sheet_colors,structural,cse_arrays,dyn_arrays,paste,autofill,links"
+C24_CATS = ["wb.sheet", "row.height", "row.hidden", "row.style", "cell.content", "cell.fmt", "cell.value", "cell.struct",
+            "cell.style", "cell.link", "col.style", "col.width", "col.hidden", "sheet.cf"]
+C24_PAT = [{"check": "xlsx-diff", "keys": ["-"], "cats": C24_CATS}]
+open_("F-C24-empty-row-attributes", "C24",
+      "height, hidden flag and style of rows that contain no cells are not written to (or read back from) the xlsx file",
+      {"nsheets": 1, "ops": [{"RowHeight": [0, 4, 5, 40.5]}]}, patterns=C24_PAT, avoid=CLEAN_C24)
+open_("F-C24-theme-tab-colour", "C24",
+      "a sheet tab colour given as a theme colour does not survive the xlsx round trip",
+      {"nsheets": 1, "ops": [{"SheetColor": [0, "[4, 0.4]"]}]}, patterns=C24_PAT, avoid=CLEAN_C24)
+open_("F-C24-name-implicit-intersection", "C24",
+      "a formula that uses a (defined or undefined) name comes back from xlsx with @ in front of the name",
+      {"nsheets": 1, "ops": [I(0, 5, 4, "=myname+1")]}, patterns=C24_PAT, avoid=CLEAN_C24)
+open_("F-C24-borders", "C24",
+      "cell borders set through set_area_with_border come back different from xlsx (neighbouring cells' border items)",
+      {"nsheets": 2, "ops": [{"Border": [1, 3, 4, 2, 3, "{\"item\":{\"style\":\"dotted\",\"color\":\"#000000\"},\"type\":\"Bottom\"}"]}]},
+      patterns=C24_PAT, avoid=CLEAN_C24)
+
 def main():
     os.makedirs(os.path.join(HERE, "findings"), exist_ok=True)
     out = []
